@@ -1188,6 +1188,9 @@ class Machine:
                         return a
                 return Opaque(name)
             return Opaque(name)
+        if name == "bool":
+            t = self.truth(args[0]) if args else False
+            return t
         if name in ("all", "any"):
             v = args[0]
             if isinstance(v, list):
